@@ -271,6 +271,14 @@ class Verdicts:
 
     def __init__(self, prop):
         self.prop = prop
+        # replay files of earlier runs of this property are stale: remove them
+        if os.path.isdir(REPLAYS) and not os.environ.get("VERIF_REPLAYING"):
+            for fn in os.listdir(REPLAYS):
+                if fn.startswith(prop + "-"):
+                    try:
+                        os.remove(os.path.join(REPLAYS, fn))
+                    except OSError:
+                        pass
         self.findings = [f for f in load_findings() if f["property"] == prop]
         self.known_hit = {}
         self.violations = []
